@@ -756,6 +756,13 @@ def check_C09(chk, tier, seed):
                     cases.append(f"SV g {rs(chunks)} {ws(wscript)} {nreq} {ans_tok}")
                     expect.append(f"SV {res} CALLS {ncalls}{calls} WRITTEN {xb(alla[:q])}")
                     kinds.append("write-fault")
+    # every 41st case once more while 70 other connections of the process are stuck writing answers to peers that have stopped
+    # reading: a connection cut after a complete request still handles it and still ends (whatever the process limits, it is not this)
+    for q in range(0, len(cases), 41):
+        if cases[q].startswith("SV g"):
+            cases.append(cases[q].replace("SV g", "SVP g", 1))
+            expect.append(expect[q])
+            kinds.append(kinds[q].split(":")[0] + ":others-stuck-writing")
     impl, model = eng.run(cases)
     for i, (c, exp, kind, im, mo) in enumerate(zip(cases, expect, kinds, impl, model)):
         chk.case(c, True)
